@@ -20,7 +20,7 @@ import RdfModel.Props.C15Ttl
 #print axioms RdfModel.C06.ttl_emits_wf
 #print axioms RdfModel.C06.trig_emits_wf
 #print axioms RdfModel.C06.ttl_default_graph
-#print axioms RdfModel.C06.ttl_langString_untagged
+#print axioms RdfModel.C06.literal_tag_iff
 #print axioms RdfModel.C07.step_flag_independent
 #print axioms RdfModel.C07.ttl_sub_trig_partial
 #print axioms RdfModel.C15.ioerr_reported
